@@ -62,6 +62,10 @@ def main(argv):
     if os.environ.get('TTMON_CASE_STRIDE'):
         cases = cases[::int(os.environ['TTMON_CASE_STRIDE'])]
     mine = list(range(shard, len(cases), nshards))
+    # the monitors run a gc pass at every case boundary: keep the (possibly 100k) case descriptors and the imported modules out of it
+    import gc
+    gc.collect()
+    gc.freeze()
     per_case_timeout = float(getattr(mod, 'CASE_TIMEOUT', {}).get(tier, 120))
 
     def on_alarm(signum, frame):
